@@ -338,6 +338,7 @@ def _make_data(kind):
 
 
 _DCACHE = {}
+_ACACHE = {}
 
 
 def _new_data(kind):
@@ -385,8 +386,13 @@ def _sv_apply(inst, cfgop):
         # a user-tabulated distribution: the arrays belong to the caller
         _, par, values, wts = cfgop
         from sasmodels import weights
-        v = np.array(values, "d")
-        w = np.array(wts, "d")
+        # (one pair of arrays per tabulated distribution and process: two
+        # instances given "the same table" get the same caller objects)
+        owner = os.getpid()
+        if _ACACHE.get("owner") != owner:
+            _ACACHE.clear()
+            _ACACHE["owner"] = owner
+        v, w = _ACACHE.setdefault((par, tuple(values), tuple(wts)), (np.array(values, "d"), np.array(wts, "d")))
         disp = weights.ArrayDispersion()
         disp.set_weights(v, w)
         inst.set_dispersion(par, disp)
